@@ -1,6 +1,7 @@
 package main
 
 import (
+	"github.com/aws/aws-sdk-go/aws/awserr"
 	"errors"
 	"fmt"
 	"strings"
@@ -47,6 +48,9 @@ type AwsOracle struct {
 	TermFail       []int      `json:"term_fail,omitempty"`
 	TermInAsgFail  []string   `json:"terminasg_fail,omitempty"` // instance ids
 	DescInstFail   bool       `json:"descinst_fail,omitempty"`
+	// ErrCode: "" = injected failures are plain errors; otherwise they are awserr.Error values with this code (what the AWS SDK
+	// returns: ValidationError, Throttling, RequestLimitExceeded, ...). What escalator does with a failed call must not depend on it.
+	ErrCode string `json:"err_code,omitempty"`
 }
 
 type AwsCall struct {
@@ -140,6 +144,14 @@ func (s *AwsSim) log(c AwsCall) {
 
 var errInjected = errors.New("injected failure")
 
+// failure returns the error an injected failure of a call on group g surfaces as.
+func (s *AwsSim) failure(g string) error {
+	if o := s.orc(g); o != nil && o.ErrCode != "" {
+		return awserr.New(o.ErrCode, "injected failure", nil)
+	}
+	return errInjected
+}
+
 type simAutoscaling struct {
 	autoscalingiface.AutoScalingAPI
 	s *AwsSim
@@ -194,7 +206,7 @@ func (m simAutoscaling) DescribeAutoScalingGroups(in *autoscaling.DescribeAutoSc
 	switch o.DescribeMode {
 	case 1:
 		s.log(AwsCall{Kind: "DescribeAsg", Group: name, OK: false})
-		return nil, errInjected
+		return nil, s.failure(name)
 	case 2:
 		s.log(AwsCall{Kind: "DescribeAsg", Group: name, OK: true})
 		return &autoscaling.DescribeAutoScalingGroupsOutput{}, nil
@@ -219,7 +231,7 @@ func (m simAutoscaling) SetDesiredCapacity(in *autoscaling.SetDesiredCapacityInp
 	fail := s.orc(name).SetDesiredFail
 	s.log(AwsCall{Kind: "SetDesired", Group: name, V: awsapi.Int64Value(in.DesiredCapacity), Honor: awsapi.BoolValue(in.HonorCooldown), OK: !fail})
 	if fail {
-		return nil, errInjected
+		return nil, s.failure(name)
 	}
 	if g, ok := s.groups[name]; ok {
 		g.Desired = awsapi.Int64Value(in.DesiredCapacity)
@@ -256,7 +268,7 @@ func (m simAutoscaling) TerminateInstanceInAutoScalingGroup(in *autoscaling.Term
 	decr := awsapi.BoolValue(in.ShouldDecrementDesiredCapacity)
 	s.log(AwsCall{Kind: "TermInAsg", Group: gname, Inst: id, Decr: decr, OK: !fail})
 	if fail {
-		return nil, errInjected
+		return nil, s.failure(gname)
 	}
 	if g, ok := s.groups[gname]; ok {
 		for i, inst := range g.Instances {
@@ -283,7 +295,7 @@ func (m simAutoscaling) AttachInstances(in *autoscaling.AttachInstancesInput) (*
 	ids := awsapi.StringValueSlice(in.InstanceIds)
 	s.log(AwsCall{Kind: "Attach", Group: name, IDs: ids, OK: !fail})
 	if fail {
-		return nil, errInjected
+		return nil, s.failure(name)
 	}
 	if g, ok := s.groups[name]; ok {
 		for _, id := range ids {
@@ -333,7 +345,7 @@ func (m simEC2) CreateFleet(in *ec2.CreateFleetInput) (*ec2.CreateFleetOutput, e
 	c.OK = !o.FleetFail
 	s.log(c)
 	if o.FleetFail {
-		return nil, errInjected
+		return nil, s.failure(gname)
 	}
 	out := &ec2.CreateFleetOutput{}
 	for _, grp := range o.FleetInstances {
@@ -399,7 +411,7 @@ func (m simEC2) TerminateInstances(in *ec2.TerminateInstancesInput) (*ec2.Termin
 	fail := hasInt(s.orc(gname).TermFail, k)
 	s.log(AwsCall{Kind: "TermInstances", Group: gname, IDs: awsapi.StringValueSlice(in.InstanceIds), OK: !fail})
 	if fail {
-		return nil, errInjected
+		return nil, s.failure(gname)
 	}
 	return &ec2.TerminateInstancesOutput{}, nil
 }
@@ -419,7 +431,7 @@ func (m simEC2) DescribeInstances(in *ec2.DescribeInstancesInput) (*ec2.Describe
 	fail := s.orc(gname).DescInstFail
 	s.log(AwsCall{Kind: "DescribeInstances", Group: gname, Inst: id, OK: !fail})
 	if fail {
-		return nil, errInjected
+		return nil, s.failure(gname)
 	}
 	lt := time.Unix(1500000000, 0)
 	return &ec2.DescribeInstancesOutput{Reservations: []*ec2.Reservation{{Instances: []*ec2.Instance{{InstanceId: awsapi.String(id), LaunchTime: &lt}}}}}, nil
